@@ -22,6 +22,7 @@ import RumaModel.Lemmas.PushPath
 import RumaModel.Lemmas.PushCount
 import RumaModel.Lemmas.PushCond
 import RumaModel.Lemmas.PushUnique
+import RumaModel.Lemmas.PushUtf8
 namespace Ruma.Props.C12
 open Ruma.Push
 open Ruma.Spec.Glob (Glob WordMatch globDecide wordDecide wordMatches valueMatches)
@@ -532,6 +533,24 @@ theorem property_paths_unambiguous (ev : PJ) (h : KeysUnique ev) :
 example : KeysUnique (.obj [("a.b".toList, .obj [("c".toList, .int 1)]), ("a".toList, .obj [("b.c".toList, .int 2)])]) := by
   simp [KeysUnique, KeysUniqueFields]
 
+/-- Why a model over code points is faithful to code that indexes `&str` by bytes. The scanner
+starts from `self.find(pattern)`, a search in the UTF-8 BYTES. UTF-8 is self-synchronising: wherever
+the bytes of a non-empty text occur in the bytes of another, they occur on character boundaries and
+as an occurrence of the characters (`utf8_occurrence`). Hence the model's code-point-level `findSub`
+IS the byte-level `str::find`: its split `(before, from)` is at the byte offset of the first
+byte-level occurrence — `cs = before ++ from`, so that offset is a character boundary and
+`char_at` / `find_prev_char` read whole characters there —, and it is `none` exactly when the
+needle's bytes occur nowhere. -/
+theorem find_on_bytes_is_find_on_chars (cp cs : List Char) (hcp : cp ≠ []) :
+    (∀ pre post : ByteArray, cs.utf8Encode = pre ++ cp.utf8Encode ++ post →
+        ∃ a b : List Char, cs = a ++ cp ++ b ∧ a.utf8Encode = pre ∧ b.utf8Encode = post) ∧
+    (∀ before from_, findSub cp cs = some (before, from_) →
+        cs = before ++ from_ ∧ IsFirstByteOcc cp cs before.utf8Encode.size) ∧
+    (findSub cp cs = none → ¬ ∃ pre post : ByteArray, cs.utf8Encode = pre ++ cp.utf8Encode ++ post) :=
+  ⟨utf8_occurrence cs cp hcp, (findSub_is_byte_find cp cs hcp).1, (findSub_is_byte_find cp cs hcp).2⟩
+
+example : "é⚡".toList ≠ [] := by decide
+
 end Ruma.Props.C12
 
 #print axioms Ruma.Props.C12.globDecide_iff_Glob
@@ -569,3 +588,4 @@ end Ruma.Props.C12
 #print axioms Ruma.Props.C12.getMatch_ignores_disabled
 #print axioms Ruma.Props.C12.self_sent_nothing_applies
 #print axioms Ruma.Props.C12.property_paths_unambiguous
+#print axioms Ruma.Props.C12.find_on_bytes_is_find_on_chars
